@@ -51,6 +51,12 @@ def gen_case(rng):
       pre.append({'op': 'interactive', 'on': interactive})
   pre = [o for o in pre if o['op'] != 'clear']
   clear = {'op': 'clear', 'constants': rng.random() < 0.35}
+  # which constants exist is decided by the reference run over the whole prefix (histories toggle
+  # interactive mode themselves, so the local flag above is not the whole story)
+  ref = refmodel.Ref()
+  for op in list(regs) + pre:
+    ref.step(refmodel._strip_values(op))  # pylint: disable=protected-access
+  defined = {c: True for c in ref.constants if c != 'gin.REQUIRED'}
   const_names = sorted(c for c in defined if refmodel.suffix_matches(defined, c) == [c])
   tail = [{'op': 'locked'}, {'op': 'config'}, {'op': 'operative'}, {'op': 'constants'}, {'op': 'registry'},
           {'op': 'singleton', 'key': 's1', 'ctor': False}, {'op': 'singleton', 'key': 's1', 'ctor': True},
